@@ -404,7 +404,8 @@ func Run(s *simrt.Sim, f Focus) {
 			rl := util.Pick(s, []int{tagLen, 64, 512, 1200})
 			if f == FocusC05 {
 				maxDown := cs.MTU - 48 - 80 // below any header overhead of the upstream protocols
-				rl = util.Pick(s, []int{tagLen, maxDown - 1000, maxDown, maxDown + 40, maxDown + 79, sp.MTU - 48 - 80, sp.MTU - 28})
+				rl = util.Pick(s, []int{tagLen, maxDown - 1000, maxDown, maxDown + 40, maxDown + 79, sp.MTU - 48 - 80, sp.MTU - 28,
+					sp.MTU - 28 - 40 - s.Choose(70), sp.MTU - 48 - 40 - s.Choose(70)}) // dense around what fits towards an IPv4 / IPv6 client
 				if rl < tagLen {
 					rl = tagLen
 				}
@@ -455,6 +456,24 @@ func Run(s *simrt.Sim, f Focus) {
 			return
 		}
 		se.end = end
+		if svc.IsSS(sp.Proto) && f != FocusC05 && s.GenChance(40) {
+			// The first datagram the relay sees of this client session is a tampered copy of the
+			// genuine first packet (same visible separate header, authentication fails); the
+			// genuine one follows. Nothing about the session may depend on that.
+			s.Probe("udprelay.forged-first-packet")
+			s.Fault("udp.forged-first-packet")
+			first := true
+			bit := s.Choose(8)
+			end.ForgeBefore = func(pkt []byte) []byte {
+				if !first || len(pkt) < 50 {
+					return nil
+				}
+				first = false
+				c := append([]byte(nil), pkt...)
+				c[len(c)-1-bit] ^= 1 << uint(bit)
+				return c
+			}
+		}
 	}
 
 	switch f {
@@ -615,6 +634,30 @@ func (r *run) traffic() {
 				sp := r.send(se, se.targets[0], 100, true)
 				if sp != nil {
 					sp.sockGen = 1
+				}
+			}
+		}
+		// a client that moves to the other address family mid-session: the size limit towards it
+		// follows (IPv4 header 28 bytes, IPv6 header 48 bytes)
+		if f == FocusC05 && svc.IsSS(r.sp.Proto) && r.sp.Listen6 && s.GenChance(64) {
+			se := r.sess[s.Choose(len(r.sess))]
+			if se.oldSock == nil {
+				r.drainAll(200 * time.Millisecond)
+				se.v6 = !se.v6
+				ip := svc.ClientIP4
+				if se.v6 {
+					ip = svc.ClientIP6
+				}
+				se.oldSock = se.end.SwitchFamily(e.Client, ip, se.v6)
+				s.Probe("c05.client-family-change")
+				if sp := r.send(se, se.targets[0], 100, true); sp != nil {
+					sp.sockGen = 1
+				}
+				// replies around the limits of the new family
+				for k := 0; k < 3; k++ {
+					if sp := r.send(se, se.targets[s.Choose(len(se.targets))], tagLen, false); sp != nil {
+						sp.sockGen = 1
+					}
 				}
 			}
 		}
